@@ -25,7 +25,10 @@ type c10Spec struct {
 	// RangeOp: presence kind only — a range operation over `| unwrap weight` whose values
 	// are not modelled; only which label sets have a series at each step is judged.
 	RangeOp string `json:"range_op,omitempty"`
-	SelB    string `json:"sel_b,omitempty"`
+	// Unwrap is the label the presence kind unwraps ("" = weight, a per-container constant;
+	// "k" = a value that changes from line to line, extracted with | logfmt).
+	Unwrap string `json:"unwrap,omitempty"`
+	SelB   string `json:"sel_b,omitempty"`
 	// Pipe is appended to every selector (labels derived from the line).
 	Pipe string `json:"pipe,omitempty"`
 	// PipeB, if set, replaces Pipe for the second operand of a binary operation.
@@ -89,6 +92,9 @@ func (s c10Spec) Query() string {
 		if s.RangeOp == "quantile_over_time" {
 			pre += "0.5, "
 		}
+		if s.Unwrap == "k" {
+			return pre + s.Sel + " | logfmt | unwrap k [" + r + "])" + grp
+		}
 		return pre + s.Sel + " | unwrap weight [" + r + "])" + grp
 	case "binop":
 		return "sum" + grp + " (count_over_time(" + s.Sel + "[" + r + "])) " + s.BinOp + " sum" + grp + " (count_over_time(" + s.SelB + "[" + r + "]))"
@@ -104,7 +110,7 @@ func (propC10) Gen(r *Rng, run uint64, tier string) *Plan {
 	start := BaseNs
 	if r.Bool(0.03) {
 		// a clock that was never set: the first windows begin before the Unix epoch
-		start = int64(1+r.Intn(3)) * 60 * sec
+		start = int64(5+r.Intn(50)) * sec
 		p.Tags["near_epoch"] = "1"
 	}
 	end := start + nsteps*step
@@ -122,7 +128,11 @@ func (propC10) Gen(r *Rng, run uint64, tier string) *Plan {
 		}
 	}
 	pipe := ""
-	if r.Bool(0.2) {
+	structured := r.Bool(0.12)
+	if structured {
+		// lines of the form level=… k=<number> …: a numeric value per line
+		spec.Msg = "structured"
+	} else if r.Bool(0.2) {
 		// Labels derived from the line: several records of one container then
 		// differ only in labels whose names and values are prefixes of one another.
 		spec.Msg = "kv"
@@ -136,10 +146,16 @@ func (propC10) Gen(r *Rng, run uint64, tier string) *Plan {
 	p.World = GenWorld(r.Sub("world"), spec)
 	sel, _ := genSelection(r.Sub("sel"), &p.World)
 	qs := c10Spec{Sel: sel, RangeNs: rng, Pipe: pipe, Kind: []string{"plain", "vec", "vec", "vec", "unwrap", "binop", "presence"}[r.Intn(7)]}
+	if structured {
+		qs.Kind = "presence"
+	}
 	if qs.Kind == "presence" {
 		qs.RangeOp = Pick(r, []string{"quantile_over_time", "quantile_over_time", "avg_over_time", "stddev_over_time", "first_over_time", "last_over_time", "sum_over_time", "min_over_time"})
 		if pipe != "" {
 			qs.Kind, qs.RangeOp = "plain", ""
+		} else if structured {
+			// values that change from line to line within one series
+			qs.Unwrap = "k"
 		}
 	}
 	if qs.Kind == "unwrap" && pipe != "" {
@@ -322,7 +338,11 @@ func c10Side(t *testing.T, p *Plan, spec c10Spec, sel string, pipe string, steps
 			}
 			lbl := e.labels
 			if spec.Kind == "unwrap" || spec.Kind == "presence" {
-				w, ok := e.labels["weight"]
+				ul := "weight"
+				if spec.Unwrap != "" {
+					ul = spec.Unwrap
+				}
+				w, ok := e.labels[ul]
 				if !ok {
 					continue
 				}
@@ -472,7 +492,11 @@ func (propC10) Check(t *testing.T, p *Plan, st *Stats) *Violation {
 				s.points = append(s.points, CPoint{T: tsec, V: fmtVal(vec[k].v)})
 			}
 		}
-		left, n1, tot1, v := c10Side(t, p, spec, spec.Sel, spec.Pipe, steps, st, dropEmpty)
+		pipeA := spec.Pipe
+		if spec.Unwrap == "k" {
+			pipeA = " | logfmt"
+		}
+		left, n1, tot1, v := c10Side(t, p, spec, spec.Sel, pipeA, steps, st, dropEmpty)
 		if v != nil {
 			return nil, nil, 0, 0, v
 		}
